@@ -36,6 +36,25 @@ def main():
             if r['violated'] != inv:
                 raise V.ToolError(f'negative control: {inv} was not violated by the pinned-code transcription')
             print(f'[setup] negative control {inv}: rejected as expected')
+        # 2a. TLAPS: the cut algebra is proved for any strict total order; a copy whose MinUp picks the wrong side is not
+        for bad in (False, True):
+            td = os.path.join(wd, 'tlaps_bad' if bad else 'tlaps')
+            os.makedirs(td)
+            src = open(os.path.join(SPEC, 'CutOrder.tla')).read()
+            if bad:
+                good_line = 'MinUp(a, b) == IF UpLe(b, a) /\\ ~UpLe(a, b) THEN b ELSE a'
+                if good_line not in src:
+                    raise V.ToolError('TLAPS control: MinUp definition not found in CutOrder.tla')
+                src = src.replace(good_line, 'MinUp(a, b) == IF UpLe(a, b) /\\ ~UpLe(b, a) THEN b ELSE a')
+            open(os.path.join(td, 'CutOrder.tla'), 'w').write(src)
+            p = V.run(['tlapm', '--threads', '8', 'CutOrder.tla'], cwd=td, timeout=900)
+            proved = re.search(r'All (\d+) obligations? proved', p.stdout)
+            if bad and (proved or 'obligations failed' not in p.stdout):
+                raise V.ToolError('TLAPS control: the damaged cut algebra was still proved')
+            if not bad and not proved:
+                raise V.ToolError('tlapm does not prove CutOrder.tla: ' + p.stdout[-1500:])
+            print('[setup] TLAPS control: damaged MinUp leaves obligations unproved' if bad
+                  else f'[setup] tlapm proves CutOrder.tla ({proved.group(1)} obligations, any strict total order)')
         # 2b. vacuity guard: with small constants every action / disjunct of every bounded model is taken
         cov_models = [
             ('MC_Interval', dict(Universe='small', Alts=1, UseImpl=False, Emit=False), ['InvIntersect']),
